@@ -11,6 +11,10 @@ import (
 )
 
 func (pipeline *Pipeline) Run(ctx context.Context) (*codejen.FS, error) {
+	if pipeline.parametersErr != nil {
+		return nil, pipeline.parametersErr
+	}
+
 	// Here begins the code generation setup
 	targetsByLanguage, err := pipeline.OutputLanguages()
 	if err != nil {
